@@ -3,6 +3,7 @@ import Cfdm.Driver.C03
 import Cfdm.Driver.C20
 import Cfdm.Driver.C14
 import Cfdm.Driver.C15
+import Cfdm.Driver.C06
 open Cfdm.Driver
 
 def step (line : String) : String :=
@@ -17,6 +18,7 @@ def step (line : String) : String :=
       | ["C20", sub] => C20.run sub kv
       | ["C14", sub] => C14.run sub kv
       | ["C15", sub] => C15.run sub kv
+      | ["C06", sub] => C06.run sub kv
       | _ => "bad-op"
 
 partial def loop (h : IO.FS.Stream) : IO Unit := do
